@@ -22,7 +22,7 @@ def plan(tier, seed):
     quick = tier == 'quick'
     regs = ['c10::Wide<%d, %s, %s, %s>::reg("%d|%s")' % (dg, n, 'true' if dg <= 127 else 'false', 'true' if n in ('int', 'unsigned') else 'false', dg, short(n))
             for dg, n in (QUICK if quick else QUICK + MORE)]
-    cases = 40000 if quick else 600000
+    cases = 100000 if quick else 1500000
     units = [Unit('C10-gxx-%d' % i, 'gxx', 'props/C10.h', [r], rc_cases=cases, chunk=1, words=64) for i, r in enumerate(regs)]
     units.append(Unit('C10-clang-0', 'clang', 'props/C10.h', regs[5:6], rc_cases=cases, chunk=1, words=64))
     units.append(Unit('C10-clang-1', 'clang', 'props/C10.h', regs[9:10], rc_cases=cases, chunk=1, words=64))
